@@ -309,14 +309,26 @@ func (r *RoundRobinSelection) Select(pool UpstreamPool, _ *layer4.Connection) *U
 	if n == 0 {
 		return nil
 	}
-	for i := uint32(0); i < n; i++ {
-		atomic.AddUint32(&r.robin, 1)
-		host := pool[r.robin%n]
-		if host.available() {
-			return host
+	// Move the cursor to the next available upstream in one atomic step. The
+	// former add-then-plain-read let concurrent selections pick the same
+	// upstream twice in a cycle and, while skipping unavailable upstreams,
+	// even miss the only available one.
+	for {
+		cur := atomic.LoadUint32(&r.robin)
+		next, found := cur, false
+		for i := uint32(1); i <= n; i++ {
+			if pool[(cur+i)%n].available() {
+				next, found = cur+i, true
+				break
+			}
+		}
+		if !found {
+			return nil
+		}
+		if atomic.CompareAndSwapUint32(&r.robin, cur, next) {
+			return pool[next%n]
 		}
 	}
-	return nil
 }
 
 // UnmarshalCaddyfile sets up the RoundRobinSelection from Caddyfile tokens. Syntax:
